@@ -1229,4 +1229,90 @@ Section Sim.
       exists (j + S n1)%nat. rewrite Hj. rewrite rebind_app by auto. fold le0 cap.
       rewrite create_step; auto. unfold cap. apply rebind_fst; auto.
   Qed.
+  (* ---------------- all statement forms, every amount of fuel ---------------- *)
+  Theorem sim_all : forall n, sim_n n.
+  Proof.
+    induction n as [|n IH]; intros rho c s s' ne le out o Hs Hsh He Hrun Hg.
+    - simpl in Hrun. subst. exfalso. eapply finish_fuel_not_good; eauto.
+    - destruct s.
+      + destruct Hs as [f [m [_ [Hns _]]]]. discriminate.
+      + eapply sim_call; eauto.
+      + eapply sim_let; eauto.
+      + eapply sim_switch; eauto.
+      + eapply sim_create; eauto.
+      + eapply sim_invoke; eauto.
+      + eapply sim_literal; eauto.
+      + eapply sim_op; eauto.
+      + eapply sim_print; eauto.
+      + eapply sim_ifc; eauto.
+      + eapply sim_exit; eauto.
+  Qed.
+
+  Lemma vrel_ints : forall zs, Forall2 vrel (map VInt zs) (map VInt zs).
+  Proof. induction zs; simpl; constructor; auto. constructor. Qed.
+
+  Theorem run_sim : forall args n o,
+    run_named n P args = o -> good o -> exists n', run_linear n' P' args = o.
+  Proof.
+    intros args n o Hrun Hg. unfold run_named in Hrun. unfold run_linear.
+    destruct (pdefs P) as [|d r] eqn:Ed.
+    { subst. exfalso. destruct Hg as [[z H]|[z H]]; simpl in H; discriminate. }
+    assert (Hok : def_ok Sg (pmax P) d = true).
+    { apply (prog_ok_defs P HP). rewrite Ed. simpl; auto. }
+    unfold linearize. rewrite Ed. simpl.
+    unfold lin_def.
+    destruct (lin (stmt_size (dbody d)) (dbody d) (dctx d) (pmax P)) as [b m1] eqn:E.
+    destruct (lin_defs r m1) as [r' m2] eqn:E'. simpl.
+    unfold entry_env in *. simpl.
+    destruct (bind (vars (dctx d)) (map VInt args)) as [e|] eqn:Eb.
+    2:{ subst. exfalso. destruct Hg as [[z H]|[z H]]; simpl in H; discriminate. }
+    apply bind_Some_length in Eb. destruct Eb as [Hlen ->].
+    pose proof (def_ok_inv _ _ _ Hok) as [Haxd _].
+    destruct (sim_all n [] (dctx d) (dbody d) b (combine (vars (dctx d)) (map VInt args))
+                      (combine (vars (dctx d)) (map VInt args)) [] o) as [n' Hn']; auto.
+    - apply (srel_def d (mkd (dname d) (dctx d) b) (pmax P)); auto. simpl. rewrite E. auto.
+    - apply combine_map_fst; auto.
+    - apply erel_params; auto.
+      + apply vrel_ints.
+      + intros x Hx. eapply ax_check_fv; eauto.
+    - exists n'. unfold linearize in Hn'. rewrite Ed in Hn'. simpl in Hn'. unfold lin_def in Hn'.
+      rewrite E, E' in Hn'. simpl in Hn'. exact Hn'.
+  Qed.
 End Sim.
+
+(* C05, semantic preservation: every run of the named machine on a program satisfying `prog_ok`
+   that ends normally (exit) or in undefined arithmetic is reproduced, observation for
+   observation, by the linear machine on the linearized program. *)
+Theorem linearize_preserves : forall p, prog_ok p = true ->
+  forall args n o, run_named n p args = o -> good o ->
+  exists n', run_linear n' (linearize p) args = o.
+Proof. intros p H args n o. apply run_sim; auto. Qed.
+
+(* more fuel does not change a finished run of the linear machine *)
+Lemma finish_not_fuel : forall out oc, oc <> OOutOfFuel -> snd (finish out oc) <> OOutOfFuel.
+Proof. intros; simpl; auto. Qed.
+
+Lemma exec_linear_mono : forall p n e s out o,
+  exec_linear n p e s out = o -> snd o <> OOutOfFuel -> forall k, exec_linear (n + k) p e s out = o.
+Proof.
+  intros p; induction n as [|n IH]; intros e s out o H Hne k.
+  - simpl in H. subst. simpl in Hne. congruence.
+  - change (S n + k)%nat with (S (n + k)).
+    destruct s; simpl in H |- *;
+      repeat match goal with
+             | |- context [match ?x with _ => _ end] =>
+                 match type of H with context [match x with _ => _ end] => destruct x end
+             end; auto.
+Qed.
+
+Theorem linearize_preserves_stable : forall p, prog_ok p = true ->
+  forall args n o, run_named n p args = o -> good o ->
+  exists n', forall k, run_linear (n' + k) (linearize p) args = o.
+Proof.
+  intros p H args n o Hrun Hg. destruct (linearize_preserves p H args n o Hrun Hg) as [n' Hn'].
+  exists n'. intros k. unfold run_linear in *.
+  destruct (pdefs (linearize p)) as [|d r]; auto.
+  destruct (entry_env d args); auto.
+  apply exec_linear_mono; auto.
+  destruct Hg as [[z Hz]|[w Hw]]; congruence.
+Qed.
